@@ -23,6 +23,45 @@ def known_functions():
     return set(json.load(open(KNOWN))["functions"])
 
 
+def signature(b):
+    """container + parameter and return types of a function (to recognise a function that was only renamed)"""
+    import hashlib
+    cont = b.name.rsplit("::", 1)[0]
+    tys = [b.local_tys[i] for i in range(0, b.argc + 1)]
+    return hashlib.sha1((cont + "|" + "|".join(tys)).encode()).hexdigest()[:16]
+
+
+def renamed_functions(prog):
+    """functions of the reference tree that are missing, paired with the one new function of the same container and
+    signature: the Def gets its reference name back (rules name functions), and is not treated as new"""
+    if not os.path.exists(KNOWN):
+        return []
+    ref = json.load(open(KNOWN))
+    sigs = ref.get("signatures", {})
+    known = set(ref["functions"])
+    present = {b.name for b in prog.bodies.values()}
+    new = [b for b in prog.bodies.values() if b.d.kind != "Closure" and b.d.local and b.name not in known
+           and not (b.mac and "derive" in b.mac)]
+    if not new:
+        return []
+    by_sig = {}
+    for b in new:
+        by_sig.setdefault(signature(b), []).append(b)
+    out = []
+    for name, sg in sigs.items():
+        if name in present or sg not in by_sig:
+            continue
+        cands = by_sig.get(sg, [])
+        # the signature includes the container path, so a candidate lives in the same impl / module
+        if len(cands) == 1 and len([n for n, s2 in sigs.items() if s2 == sg and n not in present]) == 1:
+            b = cands[0]
+            old = b.d.name
+            b.d.name = name
+            prog.by_name[name].append(b.d)
+            out.append((old, name))
+    return out
+
+
 _KC = None
 
 
@@ -200,6 +239,7 @@ def run(prog, raws, make_body):
     known = known_functions()
     if known is None:
         return []
+    prog.renamed = renamed_functions(prog)
     new_fns = {}
     for bid, b in prog.bodies.items():
         if b.d.kind == "Closure" or not b.d.local or b.name in known or bid not in raws:
